@@ -112,7 +112,7 @@ pub fn replay(c: &Value) -> Option<(String, String)> {
     let cfg: Config = serde_json::from_value(c["cfg"].clone()).ok()?;
     let corpus: Corpus = serde_json::from_value(c["corpus"].clone()).ok()?;
     let texts: Vec<String> = gen::strings(&['a', 'b', 'あ', '1'], 1, 3).iter().map(|t| gen::s(t)).collect();
-    check_case(&cfg, &corpus, &texts).1.map(|(k, w)| (sig(&k, &cfg, &corpus), w))
+    (0..8).find_map(|_| check_case(&cfg, &corpus, &texts).1).map(|(k, w)| (sig(&k, &cfg, &corpus), w))
 }
 
 pub fn configs(tier: Tier) -> Vec<Config> {
